@@ -353,6 +353,28 @@ def p6(rep):
                       "file is attributed to the wrong file and line", detail={"cfg_path": esc[:12]})
 
 
+def p7(rep, f):
+    """A position packs the global line number above the 14-bit column: `line << 15`.  The shift must be evaluated in the width of
+    the packed word: computed in int it overflows from line 65536 on and the sign-extended result decodes to a negative line."""
+    n = 0
+    for name, fn in sorted(f.funcs.items()):
+        if "body" not in fn or not fn.get("file", "").endswith("srcpos.c"):
+            continue
+        for x in walk(fn["body"]):
+            if x["k"] == "BinaryOperator" and x["op"] == "<<" and x.get("mac") == "sposSet" and const_value(x["c"][0]) is None \
+                    and (const_value(x["c"][1]) or 0) >= 15:
+                n += 1
+                key = "pack-shift-wide:%s@%d" % (name, n)
+                if x.get("tc") in ("i64", "u64"):
+                    rep.ok("P7", key)
+                else:
+                    rep.violation("P7", "pack-shift-wide:%s" % name, "srcpos.c:%d (%s)" % (x["l"], name),
+                                  "`%s` is evaluated in %s: the packed position has 48 bits for the line, but a line number of "
+                                  "65536 or more overflows the narrow shift and diagnostics beyond that line carry a garbage "
+                                  "(negative) line number" % (common.render(x)[:50], x.get("tc")))
+    rep.floor("line-number packing shifts in srcpos.c", n, 1)
+
+
 LINE_KEYS_INJECTIVE = {"sposGlobalLine"}           # serial number of the physical line over all included files
 LINE_KEYS_PARTIAL = {"sposLine", "sposChar"}       # line within one file / column: equal for different physical lines
 
@@ -410,6 +432,7 @@ def run(tier, only=None):
     f = common.extract("srcpos.c", all_trees=True)
     p2(rep, f, P)
     p3(rep, f)
+    p7(rep, f)
     fi = common.extract("include.c", all_trees=True)
     p4(rep, fi)
     p5(rep)
